@@ -11,7 +11,7 @@ One or two calls of poll_next from an arbitrary state (any buffer, any eof flag,
   no panic; on every return the state machine still owns its reader and its buffer (Idle(Some) or Reading), so the next poll
   cannot hit "Inconsistent state";  a yielded item was decoded from exactly the payload bytes of the frame the framer reported;
   afterwards exactly that frame is consumed; a refill appends to the unread bytes without touching them; an error leaves the
-  unread bytes as they were; the stream ends (None) only after two end-of-file reads in a row.
+  unread bytes as they were; the stream ends (None) only on an end-of-file read that follows an earlier one.
 """
 import re
 
@@ -19,7 +19,7 @@ import z3
 
 from interp import Interp, Struct, EnumV, Ref, Cell, UNIT, Unsupported, Infeasible, MirPanic, Coroutine, Closure
 import c11_buffer as cb
-from c11_buffer import BufModel, GVec, GSlice, GBytes, IoErr, WFut, deref, blen, bcap, boff, broot, bv, umin, some, ok, err, ISORT
+from c11_buffer import BufModel, GVec, GSlice, GBytes, IoErr, WFut, deref, blen, bcap, boff, broot, bv, umin, some, ok, err, ISORT, overlay
 
 SUMMARY_TEXT = cb.SUMMARY_TEXT + [
     "<F as Framer<B>>::extract = Err(e) | Ok(None) | Ok(Some(Frame{prefix, payload, suffix})) with solver-chosen lengths, "
@@ -87,6 +87,8 @@ class FramedModel(BufModel):
         def s_decode(I, a, p, c):
             sl = deref(a[1])
             W.decoded.append((broot(sl).data, boff(sl), blen(sl, p)))
+            if p.choose(2, "decode: ok / the codec rejects the payload") == 1:
+                return err(IoErr("codec", "InvalidData"))
             return ok(("decoded-item", len(W.decoded)))
 
         def s_flatten(I, a, p, c):
@@ -142,9 +144,7 @@ class FramedModel(BufModel):
                 nc = fresh("cap")
                 p.assume(z3.And(nc >= at + k, nc <= bv(cb.MAXLEN)))
                 v.cap = nc
-            i = z3.Int("i!")
-            old = v.data
-            v.data = z3.Lambda([i], z3.If(z3.And(at <= i, i < at + k), z3.Select(pay, i - at), z3.Select(old, i)))
+            v.data = overlay(v.data, at, k, pay, bv(0))
             v.len = at + k
             W.encoded.append((pay, k, at))
             return ok(UNIT)
@@ -281,20 +281,21 @@ class FramedModel(BufModel):
             return obs + [("Pending is returned only while a refill is in flight", z3.BoolVal(False))]
         item = r.fields[0].v
         if item.variant == 0:       # None: end of stream
-            obs.append(("the stream ends only after two end-of-file reads in a row (one recorded earlier or both now)",
+            obs.append(("the stream ends only on an end-of-file read that follows an earlier one (the second EOF ends the stream)",
                         z3.And(z3.BoolVal(len(W.read_chunks) >= 1), zero_reads[-1] if zero_reads else z3.BoolVal(False),
-                               z3.Or(eof0, z3.And(*zero_reads[-2:]) if len(zero_reads) >= 2 else z3.BoolVal(False)))))
+                               z3.Or(eof0, z3.Or(*zero_reads[:-1]) if len(zero_reads) >= 2 else z3.BoolVal(False)))))
             obs += self.stream_eq("end of stream: the unread bytes are still there", cur, [(st.data, st.begin, unread0)] + chunks)
             return obs
         res = item.fields[0].v
-        if res.variant == 1:
+        if res.variant == 1 and not (isinstance(res.fields[0].v, IoErr) and res.fields[0].v.origin == "codec"):
             e = res.fields[0].v
             obs.append(("an error item comes from the framer or the reader", z3.BoolVal(isinstance(e, IoErr) and e.origin in ("framer", "inner"))))
             obs += self.stream_eq("an error leaves the unread bytes as they were (plus what was read before it)", cur,
                                   [(st.data, st.begin, unread0)] + chunks)
             return obs
-        # Ok(item): the last extracted frame was decoded and consumed
-        obs.append(("an item is yielded only for a frame the framer reported, decoded exactly once", z3.BoolVal(len(W.frames) == 1 and len(W.decoded) == 1)))
+        # Ok(item), or the codec's own error for this frame: the extracted frame was shown to the codec and is consumed either way
+        # (a frame the codec rejects must not be extracted again: the stream would repeat the error forever)
+        obs.append(("an item (or the codec's error) is yielded only for a frame the framer reported, decoded exactly once", z3.BoolVal(len(W.frames) == 1 and len(W.decoded) == 1)))
         if len(W.frames) == 1 and len(W.decoded) == 1:
             pre, pay, suf, fdata, foff, favail = W.frames[0]
             ddata, doff, dlen = W.decoded[0]
